@@ -76,6 +76,14 @@ fn go_split<T: Lab>(op: &str, args: &[Arg]) -> Option<String> {
         ("argsort", [ax, Arg::Z(k)]) => res_arr(&a.argsort(opt_isize(ax)?, Some(sort_kind(*k)))),
         ("argsort", [ax, Arg::S(k)]) => res_arr(&a.argsort(opt_isize(ax)?, Some(String::from_utf8(k.clone()).ok()?))),
         ("unique", [ax]) => res_arr(&a.unique(opt_isize(ax)?)),
+        ("delete", [Arg::L(idx), ax]) => res_arr(&a.delete(&usizes(idx), opt_usize(ax)?)),
+        ("insert", [Arg::L(idx), Arg::A(s2, e2), ax]) => res_arr(&a.insert(&usizes(idx), &mk::<T>(s2, e2)?, opt_usize(ax)?)),
+        ("insert_entry", [Arg::L(idx), Arg::A(s2, e2), ax]) => match a.insert(&usizes(idx), &mk::<T>(s2, e2)?, opt_usize(ax)?) {
+            Err(e @ (ArrayError::AxisOutOfBounds | ArrayError::OutOfBounds { .. })) => err_str(&e),
+            _ => "z(1)".to_string(),
+        },
+        ("trim_zeros", []) => res_arr(&a.trim_zeros()),
+        ("repeat", [Arg::L(reps), ax]) => res_arr(&a.repeat(&usizes(reps), opt_usize(ax)?)),
         ("flip", [Arg::N]) => res_arr(&a.flip(None)),
         ("flip", [Arg::L(ax)]) => res_arr(&a.flip(Some(isizes(ax)))),
         ("flipud", []) => res_arr(&a.flipud()),
@@ -102,7 +110,7 @@ pub fn dispatch(op: &str, ty: &str, args: &[Arg]) -> Option<String> {
             "f64" => go_num::<f64>(false, op, args), "f64p" => go_num::<f64>(true, op, args), "f32p" => go_num::<f32>(true, op, args),
             _ => None,
         },
-        "array_split" | "split" | "split_axis" | "hsplit" | "vsplit" | "dsplit" | "sort" | "argsort" | "unique" | "flip" | "flipud" | "fliplr" | "roll" | "rot90" =>
+        "array_split" | "split" | "split_axis" | "hsplit" | "vsplit" | "dsplit" | "sort" | "argsort" | "unique" | "flip" | "flipud" | "fliplr" | "roll" | "rot90" | "delete" | "insert" | "insert_entry" | "trim_zeros" | "repeat" =>
             Some(with_lab_type!(ty, T, match go_split::<T>(op, args) { Some(s) => s, None => "bad:input".to_string() })),
         "append" | "concatenate" | "stack" | "vstack" | "row_stack" | "hstack" | "hstack_pinned" | "dstack" | "column_stack" =>
             Some(with_lab_type!(ty, T, match go_join::<T>(op, args) { Some(s) => s, None => "bad:input".to_string() })),
